@@ -38,8 +38,76 @@ def parse_bodies(crate):
     return out
 
 
+def _closure_effects(crate, pb, cpath, out_local):
+    """parsers / assigned attribute fields / `=` tokens / peeks of a closure defined in parse() (one closure per key:
+    `"rename" => (|| { out.rename = Some(parse_assign_str(input)?); Ok(()) })()`): captures are mapped back to the
+    fields of `out` they borrow"""
+    cbs = crate.by_path.get(cpath) or []
+    if not cbs:
+        return [], [], 0, 0
+    cb = cbs[0]
+    cap = {}
+    for blk in range(pb.n):
+        for st in pb.stmts(blk):
+            if st["k"] == "assign" and st["rv"]["k"] == "agg" and st["rv"].get("closure") == cpath:
+                for idx, o in enumerate(st["rv"]["ops"]):
+                    l0 = op_local(o)
+                    if l0 is None:
+                        continue
+                    for db, i, d in M.def_sites(pb, l0):
+                        if i != "term" and d["rv"]["k"] == "ref":
+                            named = [p for p in d["rv"]["pl"]["p"] if p.startswith(".") and not p[1:].isdigit()]
+                            if named:
+                                cap[idx] = named[-1]
+                            elif d["rv"]["pl"]["l"] == out_local:
+                                cap[idx] = "*"
+    parsers, fields, eqs, peeks = [], [], 0, 0
+    for x in range(cb.n):
+        if cb.is_cleanup(x):
+            continue
+        for st in cb.stmts(x):
+            if st["k"] == "assign" and st["dst"]["p"]:
+                pl = st["dst"]
+                if pl["l"] != 1:
+                    ds = M.def_sites(cb, pl["l"])
+                    if len(ds) == 1 and ds[0][1] != "term" and ds[0][2]["rv"]["k"] == "use":
+                        src = M.op_place(ds[0][2]["rv"]["op"])
+                        if src and src["l"] == 1:
+                            # `(*_t).field = ..` with `_t = copy (*_1).N`
+                            extra = [p for p in pl["p"] if p.startswith(".") and not p[1:].isdigit()]
+                            idx = [p for p in src["p"] if p.startswith(".") and p[1:].isdigit()]
+                            if idx and int(idx[0][1:]) in cap:
+                                fields.append(cap[int(idx[0][1:])] if cap[int(idx[0][1:])] != "*" else (extra[-1] if extra else "*"))
+                            continue
+                if pl["l"] == 1:
+                    idx = [p for p in pl["p"] if p.startswith(".") and p[1:].isdigit()]
+                    extra = [p for p in pl["p"] if p.startswith(".") and not p[1:].isdigit()]
+                    if idx and int(idx[0][1:]) in cap:
+                        fields.append(cap[int(idx[0][1:])] if cap[int(idx[0][1:])] != "*" else (extra[-1] if extra else "*"))
+        term = cb.term(x)
+        if term["k"] == "call":
+            f = term.get("fn") or {}
+            p = f.get("path", "")
+            if re.search(VALUE_PARSERS, p):
+                parsers.append(p.split("::")[-1] + ("::<%s>" % ",".join(f["args"]) if f.get("args") else ""))
+            if fn_matches(term, *EQ_TOKEN):
+                eqs += 1
+            if fn_matches(term, r"ParseBuffer::<'_>::peek"):
+                peeks += 1
+    return parsers, [f for f in fields if f != "*"], eqs, peeks
+
+
+_END_OF_LIST_HELPERS = set()
+
+
 def extract(crate):
     tables = {}
+    _END_OF_LIST_HELPERS.clear()
+    for hb in crate.bodies:
+        if hb.kind == "Fn" and hb.path.startswith("attr::") and any(fn_matches(t, r"ParseBuffer::<'_>::is_empty$", r"ParseBuffer::is_empty$") for _, t in hb.calls()) \
+                and "ParseBuffer" in " ".join(l["ty"] for l in hb.locals[1:1 + hb.raw["arg_count"]]) and hb.raw.get("ret_ty", "").endswith("bool, syn::Error>"):
+            _END_OF_LIST_HELPERS.add(hb.path)
+    siblings = frozenset(b.path for b in parse_bodies(crate).values())
     for name, pb in parse_bodies(crate).items():
         b = pb
         has_eq = lambda x: any(fn_matches(tt, r"impl std::cmp::PartialEq for str>::eq$") for _, tt in x.calls())
@@ -51,6 +119,13 @@ def extract(crate):
                     break
         t = Table(name, b)
         t.form = form
+        # parse() with the shared end-of-list helper spliced in (for rules about the separator / end-of-list protocol)
+        if _END_OF_LIST_HELPERS and any(((term.get("fn") or {}).get("res") or (term.get("fn") or {}).get("path")) in _END_OF_LIST_HELPERS for _, term in pb.calls()):
+            lb = M.Body(M.inline_raw(crate, pb, 2, ("TS",), only=set(_END_OF_LIST_HELPERS)), crate.name)
+            lb.plain = pb
+            t.loop_body = lb
+        else:
+            t.loop_body = None
         t.parent = pb if form == "closure" else None
         for i, l in enumerate(b.locals):
             if l["name"] == "out":
@@ -111,6 +186,7 @@ def extract(crate):
             region = b.reachable_from([arm_block], stop=lambda x: x in stop) - stop
             region = {x for x in region if not b.is_cleanup(x)}
             parsers, fields, eq_tokens, peeks = [], [], 0, 0
+            soft = None
             for x in sorted(region):
                 for st in b.stmts(x):
                     if st["k"] == "assign" and t.form == "direct" and st["dst"]["l"] == t.out_local and st["dst"]["p"]:
@@ -138,8 +214,23 @@ def extract(crate):
                         eq_tokens += 1
                     if fn_matches(term, r"ParseBuffer::<'_>::peek"):
                         peeks += 1
+                    if t.form == "direct" and fn_matches(term, r"ops::Fn(Mut|Once)?::call(_mut|_once)?$", r"ops::function::Fn") and term["args"] and op_local(term["args"][0]) is not None:
+                        # the arm's work is done by a closure called on the spot
+                        for o in M.origins(b, op_local(term["args"][0])):
+                            cl = o["rv"].get("closure") if o["kind"] == "agg" else None
+                            if cl and cl.startswith(t.body.path + "::{closure"):
+                                cp, cf, ce, ck = _closure_effects(crate, b, cl, t.out_local)
+                                # what becomes of a failure inside the closure: `(..)().is_ok()` keeps it local to this key,
+                                # `(..)()?` makes it the failure of the whole list
+                                cons = M._consumers(b, term["dst"]["l"])
+                                is_soft = bool(cons) and all(fn_matches(u, r"Result::<T, E>::(is_ok|is_err|ok|unwrap_or|unwrap_or_default)$") for u in cons)
+                                soft = is_soft if soft is None else (soft and is_soft)
+                                parsers += cp
+                                fields += cf
+                                eq_tokens += ce
+                                peeks += ck
             t.arms.append({"keys": sorted(e["key"] for e in es), "block": arm_block, "region": region, "parsers": parsers,
-                           "fields": sorted(set(fields)), "eq_tokens": eq_tokens, "peeks": peeks,
+                           "fields": sorted(set(fields)), "eq_tokens": eq_tokens, "peeks": peeks, "failure_stays_local": bool(soft),
                            "line": es[0]["line"], "file": es[0]["file"]})
         t.arms.sort(key=lambda a: a["keys"])
         tables[name] = t
@@ -208,6 +299,9 @@ def first_joins(b, start):
     passing another one: the loop's join after a key has been handled"""
     cands = {blk for blk, term in b.calls()
              if fn_matches(term, r"ParseBuffer::<'_>::is_empty$", r"ParseBuffer::is_empty$") and not b.is_cleanup(blk)}
+    if not cands and _END_OF_LIST_HELPERS:
+        # the end-of-list test may live in a helper shared by the parse bodies (`end_of_list(input)?`)
+        cands = {blk for blk, term in b.calls() if not b.is_cleanup(blk) and ((term.get("fn") or {}).get("res") or (term.get("fn") or {}).get("path")) in _END_OF_LIST_HELPERS}
     if not cands:
         return set()
     return b.reachable_from([start], stop=lambda x: x in cands) & cands
